@@ -125,6 +125,9 @@ impl Check for C11 {
                 if n >= 2 && ed.path[..n - 1].iter().any(|x| matches!(x, ebml_iterable::specs::PathPart::Global(_))) {
                     st.inc("probe_intermediate_placeholder_paths");
                 }
+                if ed.path.iter().filter(|x| matches!(x, ebml_iterable::specs::PathPart::Global(_))).count() >= 2 {
+                    st.inc("probe_paths_with_several_placeholders");
+                }
             }
             // ---------------- writer ----------------
             let (tag, opt) = probe_tag(&c.spec, *p, &mut pr);
@@ -319,7 +322,7 @@ impl Check for C11 {
     }
 
     fn rule(&self) -> &'static str {
-        "One case = specification (random forest of masters up to depth 7, leaves at any depth, global placeholders with arbitrary bounds in trailing AND intermediate position, global masters; or the derive-generated StaticSpec) + a reachable chain of open masters (depth 0-7, some unknown-size) for which EVERY element of the specification is probed: (writer) the chain is opened through the API and write(probe) must return Ok iff the reference NFA matches the declared path against the chain, else UnexpectedTag with the probe's id and an allowed tag must still be accepted afterwards; (reader) the stream chain…probe from the reference encoder — in a third of the probes with a completed known-size sibling subtree (possibly holding an unknown-size master closed by exhaustion) in front of the probe — is read strictly and must succeed iff the matcher accepts the probe under the chain remaining after the closing rule, else fail with the hierarchy error carrying the probe's id. Non-trivial: chain depth >= 1. Distinct: FNV-1a fingerprint of chain + specification."
+        "One case = specification (random forest of masters up to depth 7, leaves at any depth, global placeholders with arbitrary bounds in trailing AND intermediate position and several (non-adjacent) per path, global masters; or the derive-generated StaticSpec) + a reachable chain of open masters (depth 0-7, some unknown-size) for which EVERY element of the specification is probed: (writer) the chain is opened through the API and write(probe) must return Ok iff the reference NFA matches the declared path against the chain, else UnexpectedTag with the probe's id and an allowed tag must still be accepted afterwards; (reader) the stream chain…probe from the reference encoder — in a third of the probes with a completed known-size sibling subtree (possibly holding an unknown-size master closed by exhaustion) in front of the probe — is read strictly and must succeed iff the matcher accepts the probe under the chain remaining after the closing rule, else fail with the hierarchy error carrying the probe's id. Non-trivial: chain depth >= 1. Distinct: FNV-1a fingerprint of chain + specification."
     }
     fn assumptions(&self) -> Vec<&'static str> {
         vec![
@@ -329,6 +332,6 @@ impl Check for C11 {
         ]
     }
     fn expected_probes(&self) -> Vec<&'static str> {
-        vec!["probes_expected_accept", "probes_expected_reject", "probe_placeholder_paths", "probe_intermediate_placeholder_paths", "probe_closes_unknown_size_masters", "reader_probes", "probe_reader_stream_with_completed_sibling", "probe_reader_stream_with_unknown_master_closed_by_exhaustion"]
+        vec!["probes_expected_accept", "probes_expected_reject", "probe_placeholder_paths", "probe_intermediate_placeholder_paths", "probe_paths_with_several_placeholders", "probe_closes_unknown_size_masters", "reader_probes", "probe_reader_stream_with_completed_sibling", "probe_reader_stream_with_unknown_master_closed_by_exhaustion"]
     }
 }
